@@ -53,7 +53,14 @@ def run(ctx, rep):
     rm = prog.own_method("SimulatedMiddleware", "remove_market")
     purges_in_remove = any(f is rm for f, c2, m in purged) or any(
         "_runner_removals" in utext(s) for s in walk_nodes(rm.node.body, (ast.Delete, ast.Assign)))
-    rep.check(has_market or not instance_wide or purges_in_remove, "R1",
+    # a registry without the market in its key can only be purged wholesale: that re-applies the
+    # removals of every market still in flight (once is the other half of the clause)
+    rep.check(has_market or not (purged or any(f.qual != "SimulatedMiddleware.__init__" for f, s in stores)), "R1",
+              key(call, None, "applied removals are not forgotten while their market is still processed"), call, None,
+              "the registry key %s does not identify the market, yet the registry is cleared/rebound in %s: removals of "
+              "markets still in flight are applied a second time" % (comps, sorted({f.qual for f, c2, m in purged} |
+                                                                               {f.qual for f, s in stores if f.qual != "SimulatedMiddleware.__init__"})))
+    rep.check(has_market, "R1",
               key(call, None, "de-duplication key of applied removals identifies the market"), call, kd[0] if kd else None,
               "key is %s and the registry lives for the whole middleware instance: the same selection and "
               "factor removed in another market of the run is taken for already applied and never processed" % (comps,))
